@@ -148,7 +148,7 @@ def _run(case, choices, res, log):
     ctx = lambda: "family=%s keepalive=%s sendfile=%r fault=%r reqs=%s progs=%s wire=%s" % (
         fam, case["keepalive"], case["sendfile"], case["fault"],
         [(r["method"], r["version"], r["wants_close"]) for r in case["reqs"]],
-        [{k: (v if k != "chunks" else [c[:12] for c in v]) for k, v in p.items() if k in ("status", "kind", "chunks", "cl", "fail", "file")}
+        [{k: (v if k != "chunks" else [c[:12] for c in v]) for k, v in p.items() if k in ("status", "kind", "chunks", "cl", "fail", "file", "pre_write", "first_sr")}
          for p in case["progs"]][:3], bsafe(wire, 400))
     log.add(fam, "served", (len(sock.ops), len(wire), state.calls, sock.closed, sock.shut))
     res.from_log(log)
